@@ -31,6 +31,16 @@ var engineAssumptions = []string{
 
 var checks = []Check{
 	{
+		ID: "C20", Title: "connection and request statistics are conserved", Level: "model_checking",
+		LevelText: "every history up to depth 4/5 of connects, disconnects, successful / unsupported / invalid / multi-key requests, MOVED and ASK redirections, node down/up, backend resets, connection-limit rejections, host removal, ending either with every client closed or with Stop while connections are open, on the real Redis and TCP processors with their real listeners; counters read through the stats objects as deltas at every quiescent point",
+		Technique: "exhaustive enumeration of traffic/fault histories on the real processors under a controlled scheduler",
+		Assumptions: append([]string{"counters are process-wide; each execution compares against a snapshot taken at its own start", "default schedule per operation"}, engineAssumptions...),
+		Jobs: []Job{
+			{Pkg: "proc/redis", Scenarios: []string{"C20/redis"}, Shards: 16, QuickS: 90, ThoroughS: 900},
+			{Pkg: "proc/tcp", Scenarios: []string{"C20/tcp"}, Shards: 16, QuickS: 60, ThoroughS: 600},
+		},
+	},
+	{
 		ID: "C08", Title: "running services converge to the configured services and endpoints", Level: "model_checking",
 		LevelText: "explicit-state BFS (canonical-state de-duplication over store table + running processors + host sets) over every history up to depth 5/6 of dependency add/remove, valid/invalid configuration updates and endpoint updates (every added/removed subset combination of two addresses, including an address in both lists and removals before additions) for two services, fed through the real configuration store into the real controller with recording processors; controller draining after every update or only at the end; with and without a bootstrap static service; plus all schedules within bounds of the updater racing the controller loop",
 		Technique: "explicit-state BFS over operation histories of the real store+controller under a controlled scheduler + preemption-bounded schedule exploration",
